@@ -293,6 +293,20 @@ let handle fields impl : string option * string list =
     (* the panic message is informative only *)
     let ms = if m = Panic && starts impl "panic" then impl else show_res m in
     (Some ms, vc_monitors tbl src key content impl)
+  | ["seq"; key; sf; steps] ->
+    (* consecutive validations under one key: each is judged on its own content only - whatever was validated before
+       must not matter *)
+    let key = unhx key in
+    let src = let sh = parse_S sf in fun _ -> sh in
+    let parsed = List.map (fun st -> match String.split_on_char '~' st with
+        | [c; h; bd; r] -> let c' = unhx c in (c', (ub c', parse_truth h bd r)) | _ -> failwith "seq step") (split_on ';' steps) in
+    let tbl = List.map snd parsed in
+    let ms = List.map (fun (c, _) -> rc (m_validate variant tbl src key c)) parsed in
+    let iobs = if starts impl "ok " then String.sub impl 3 (String.length impl - 3) else "" in
+    let fails = List.concat (List.mapi (fun i (c, _) ->
+        let io = if i < String.length iobs then (match iobs.[i] with 'o' -> "ok" | 'e' -> "err" | _ -> "panic") else "missing" in
+        List.map (fun f -> f ^ " (step " ^ string_of_int i ^ " of a back-to-back sequence)") (vc_monitors tbl src key c io)) parsed) in
+    (Some ("ok " ^ String.concat "" ms), fails)
   | ["orcraw"; _; _] -> (Some "err", if starts impl "err" then [] else ["oracle-accepted-non-hex-answer " ^ impl])
   | ["orc"; hash; served; h] | ["orcnet"; _; hash; served; h] ->
     let hash = unhx hash in
